@@ -55,6 +55,10 @@ def check_grid(kind, dims, order, rev, inc, loc, viol):
     tag = f"{kind} dims={dims} order={order} reversed={rev} increase={inc} location={loc.name}"
     g = make(kind, dims, order, rev, inc, loc)
     shp = tuple(int(x) for x in g.data_shape)
+    ax_shp = tuple(len(a) for a in g.data_axes)
+    if shp != ax_shp:
+        viol.append(f"C14 data_shape {shp} contradicts the lengths of data_axes {ax_shp}: {tag}")
+        return
     # --- C14: index -> coordinate -> flattened data_points
     loc_map = located(g)
     dp = np.asarray(g.data_points)
